@@ -119,6 +119,7 @@ pub fn refine(c: &Collector, prop: &str, engine: &str, t: &Trans, comps: &[Comp]
             false
         }
         Ok((post_screen, post, _)) => {
+            local.count("oracle_checks");
             let mut m = Model::new(t.pre);
             m.apply(t.op);
             if m.scrolled {
@@ -194,6 +195,7 @@ pub fn invariant(c: &Collector, prop: &str, engine: &str, t: &Trans, local: &mut
     match t.outcome {
         Err(_) => false,
         Ok((post_screen, post, disp)) => {
+            local.count("oracle_checks");
             let mut problems = wellformed(post_screen);
             problems.extend(colours_legal(post));
             if let Some(d) = disp {
